@@ -2124,3 +2124,94 @@ theorem specCore_contains (rest : Bytes) (limit j b : Nat)
 
 
 end TsVerif.C18
+
+/-! ## Tag construction -/
+namespace TsVerif.C18
+
+
+theorem foldl_inv {α β : Type} (P : β → Prop) (f : β → α → β) (S : List α)
+    (hf : ∀ b a, a ∈ S → P b → P (f b a)) : ∀ (l : List α) (b : β), (∀ a ∈ l, a ∈ S) → P b → P (l.foldl f b) := by
+  intro l
+  induction l with
+  | nil => intro b _ h; exact h
+  | cons a l ih =>
+    intro b hl h
+    exact ih _ (fun x hx => hl x (List.mem_cons_of_mem _ hx)) (hf b a (hl a List.mem_cons_self) h)
+
+theorem capLoop_mem (cfg : Cfg) (pi : PatInfo) (caps : List Cap) :
+    (∀ c, (capLoop cfg pi caps).name = some c → c ∈ caps) ∧ (∀ c, (capLoop cfg pi caps).tag = some c → c ∈ caps) := by
+  unfold capLoop
+  apply foldl_inv (fun a : Acc => (∀ c, a.name = some c → c ∈ caps) ∧ (∀ c, a.tag = some c → c ∈ caps))
+  · intro b a ha hP
+    obtain ⟨h1, h2⟩ := hP
+    constructor
+    · intro c hc
+      simp only at hc
+      (repeat' split at hc) <;> simp_all <;> first | (subst hc; exact ha) | exact h1 c hc | (rcases hc with rfl; exact ha)
+    · intro c hc
+      simp only at hc
+      (repeat' split at hc) <;> simp_all <;> first | (subst hc; exact ha) | exact h2 c hc | (rcases hc with rfl; exact ha)
+  · intro a h; exact h
+  · simp
+
+
+/-- What `tagOf` builds: an ignore placeholder, or a tag whose name range and span are those of a capture
+of the match and whose range is the hull of that capture and the tag capture. -/
+theorem tagOf_shape (v : Variant) (cfg : Cfg) (src : Bytes) (pi : PatInfo) (m : Mat) (st : St) (t : Tag)
+    (pv : Option LineInfo) (h : tagOf v cfg src pi m st = some (t, pv)) :
+    t.isIgnored = true ∨
+    ∃ nameC ∈ m.caps, ∃ tagC ∈ m.caps, t.name = ⟨nameC.sb, nameC.eb⟩ ∧
+      t.range = ⟨min tagC.sb nameC.sb, max tagC.eb nameC.eb⟩ ∧ t.spanS = nameC.sp ∧ t.spanE = nameC.ep := by
+  have hmem := capLoop_mem cfg pi m.caps
+  unfold tagOf at h
+  generalize capLoop cfg pi m.caps = a at h hmem
+  obtain ⟨name, docs, tag, stid, isDef, adj, ignored⟩ := a
+  cases name with
+  | none => simp at h
+  | some nameNode =>
+    have hn := hmem.1 nameNode rfl
+    cases tag with
+    | some tagNode =>
+      have ht := hmem.2 tagNode rfl
+      simp only at h
+      split at h
+      · simp at h
+      · split at h
+        · simp at h
+        · simp only [Option.some.injEq, Prod.mk.injEq] at h
+          right
+          refine ⟨nameNode, hn, tagNode, ht, ?_⟩
+          rw [← h.1]; exact ⟨rfl, rfl, rfl, rfl⟩
+    | none =>
+      simp only at h
+      split at h
+      · simp only [Option.some.injEq, Prod.mk.injEq] at h
+        left; rw [← h.1]; simp [Tag.ignored, Tag.isIgnored]
+      · simp at h
+
+theorem arrivals_from_tagOf (v : Variant) (cfg : Cfg) (src : Bytes) : ∀ (ms : List Mat) (st : St),
+    ∀ a ∈ arrivals v cfg src ms st, ∃ m ∈ ms, ∃ st' pv, tagOf v cfg src (cfg.pats[m.pat]?.getD {}) m st' = some (a.1, pv) := by
+  intro ms
+  induction ms with
+  | nil => intro st a ha; simp [arrivals] at ha
+  | cons m ms ih =>
+    intro st a ha
+    simp only [arrivals, List.mem_append] at ha
+    rcases ha with ha | ha
+    · generalize hst1 : ({ st with queue := (flushReadyP st.queue.length st.queue).2 } : St) = st1 at ha
+      unfold inserted at ha
+      by_cases hp : m.pat < cfg.tagsFrom
+      · simp [hp] at ha
+      · simp only [hp, if_false] at ha
+        cases ht : tagOf v cfg src (cfg.pats[m.pat]?.getD {}) m st1 with
+        | none => simp [ht] at ha
+        | some x =>
+          obtain ⟨t, pv⟩ := x
+          simp [ht] at ha
+          refine ⟨m, List.mem_cons_self, st1, pv, ?_⟩
+          rw [ha]; exact ht
+    · obtain ⟨m', hm', rest⟩ := ih _ a ha
+      exact ⟨m', List.mem_cons_of_mem _ hm', rest⟩
+
+
+end TsVerif.C18
